@@ -196,6 +196,14 @@ func c04Session(s *vStation, rec *kit.Rec, rng interface{ Read([]byte) (int, err
 			return len(got) >= len(early) && len(conn.Written()) >= len(reply)
 		})
 	}
+	if ok {
+		// the tunnel is open and has carried data in both directions: the registration must be in the
+		// "used" state NOW (a registration that is carrying a connection must not run on the 10-minute
+		// lifetime of an unused one), not only once the connection has ended
+		if used, tracked := s.rm.VerifUsed(reg); !tracked || !used {
+			viol("not-marked-used-while-connection-open:"+class, "the registration is carrying an open, relaying connection but is not marked as used", map[string]interface{}{"tracked": tracked, "used": used})
+		}
+	}
 	conn.SetAtEnd(kit.EndEOF)
 	select {
 	case <-done:
